@@ -613,6 +613,40 @@ class Unit:
                     audit_r1(m["args"], f"{relfile}:{line_of(src, m['span'][0])}")
                     edits.append(Edit(m["span"][0], m["span"][1], lambda r: "crate::format_opaque()"))
                     self.log("R27", relfile, src, m["span"][0], "format!(..) -> opaque String (no property specifies message text)")
+                elif m["path"] in ("write", "writeln") and "r28" in opts:
+                    # R28: `write!(f, "..", a, b)` -> `{ let _ = &(a); let _ = &(b); crate::fmt_write(f) }`: the arguments are still
+                    # evaluated (constructor calls keep their preconditions), the text produced is opaque
+                    ts_, te_ = m["tokens"]
+                    ttxt = src[ts_:te_].decode()
+                    parts_, depth_, cur_, instr_ = [], 0, "", False
+                    prev_ = ""
+                    for ch in ttxt:
+                        if instr_:
+                            cur_ += ch
+                            if ch == '"' and prev_ != "\\":
+                                instr_ = False
+                        elif ch == '"':
+                            instr_ = True; cur_ += ch
+                        elif ch in "([{":
+                            depth_ += 1; cur_ += ch
+                        elif ch in ")]}":
+                            depth_ -= 1; cur_ += ch
+                        elif ch == "," and depth_ == 0:
+                            parts_.append(cur_.strip()); cur_ = ""
+                        else:
+                            cur_ += ch
+                        prev_ = ch
+                    if cur_.strip():
+                        parts_.append(cur_.strip())
+                    if len(parts_) < 2 or not parts_[1].startswith('"'):
+                        raise Unsupported(f"{where}: cannot split `{m['path']}!({ttxt[:60]}..)`")
+                    evals = ""
+                    for a_ in parts_[2:]:
+                        a_ = re.sub(r"^[A-Za-z_][A-Za-z0-9_]*\s*=\s*(?!=)", "", a_)
+                        evals += f"let _ = &({a_}); "
+                    rep_ = "{ " + evals + f"crate::fmt_write({parts_[0]}) }}"
+                    edits.append(Edit(m["span"][0], m["span"][1], lambda r, rep_=rep_, semi=m["stmt"]: rep_ + (";" if semi else "")))
+                    self.log("R28", relfile, src, m["span"][0], f"{m['path']}!(..) -> arguments evaluated, text opaque (crate::fmt_write)")
                 elif m["path"] in SPAN_MACROS and "keepmacros" not in opts:
                     edits.append(Edit(m["span"][0], m["span"][1], lambda r: "()"))
                     self.log("R2", relfile, src, m["span"][0], f"{m['path']}!(..) -> ()")
